@@ -765,8 +765,80 @@ fn book_children(node: BookMoves) -> Result<Vec<chess_lookup::BookMove>, String>
     Ok(out)
 }
 
+/// every way of consuming a node's iterator agrees with plain repeated next(): the front ends
+/// use count() and nth(x) (chess-cli), and std adaptors (skip, step_by, last, ...) route through
+/// whichever of these methods the iterator type overrides
+fn book_iter_methods(node: BookMoves, kids: &[chess_lookup::BookMove]) -> Result<u64, String> {
+    type K = (u8, u8, BookMoves);
+    let key = |m: chess_lookup::BookMove| -> K { (m.source as u8, m.dest as u8, m.children) };
+    let due: Vec<K> = kids.iter().map(|m| key(*m)).collect();
+    let n = due.len();
+    let mut calls = 0u64;
+    let mut it = node.into_iter();
+    for consumed in 0..=n + 1 {
+        let rest = &due[consumed.min(n)..];
+        let e = |what: String, got: String, want: String| Err(format!("C17 iterator of {node:?} after {consumed} x next(): {what} gives {got}, repeated next() gives {want}"));
+        let (lo, hi) = it.size_hint();
+        if lo > rest.len() || hi.map_or(false, |h| h < rest.len()) {
+            return e("size_hint()".into(), format!("({lo}, {hi:?})"), format!("{} items", rest.len()));
+        }
+        let c = it.clone().count();
+        if c != rest.len() {
+            return e("count()".into(), c.to_string(), rest.len().to_string());
+        }
+        let l = it.clone().last().map(key);
+        if l != rest.last().copied() {
+            return e("last()".into(), format!("{l:?}"), format!("{:?}", rest.last()));
+        }
+        let f = it.clone().fold(vec![], |mut a, x| {
+            a.push(key(x));
+            a
+        });
+        if f != rest {
+            return e("fold(push)".into(), format!("{f:?}"), format!("{rest:?}"));
+        }
+        calls += 4;
+        for k in crate::itermodel::ks(rest.len()) {
+            let mut c = it.clone();
+            let g = c.nth(k).map(key);
+            if g != rest.get(k).copied() {
+                return e(format!("nth({k})"), format!("{g:?}"), format!("{:?}", rest.get(k)));
+            }
+            let after: Vec<K> = c.clone().take(BOOK_STEP_BOUND).map(key).collect();
+            let want_after: &[K] = if k < rest.len() { &rest[k + 1..] } else { &[] };
+            if after != want_after {
+                return e(format!("the remainder after nth({k})"), format!("{after:?}"), format!("{want_after:?}"));
+            }
+            if c.next().map(key) != want_after.first().copied() {
+                return e(format!("next() after nth({k})"), "something else".into(), format!("{:?}", want_after.first()));
+            }
+            let sk: Vec<K> = it.clone().skip(k).take(BOOK_STEP_BOUND).map(key).collect();
+            let want_sk: &[K] = if k < rest.len() { &rest[k..] } else { &[] };
+            if sk != want_sk {
+                return e(format!("skip({k})"), format!("{sk:?}"), format!("{want_sk:?}"));
+            }
+            if k >= 1 {
+                let sb: Vec<K> = it.clone().step_by(k).take(BOOK_STEP_BOUND).map(key).collect();
+                let want_sb: Vec<K> = rest.iter().copied().step_by(k).collect();
+                if sb != want_sb {
+                    return e(format!("step_by({k})"), format!("{sb:?}"), format!("{want_sb:?}"));
+                }
+                calls += 1;
+            }
+            calls += 4;
+        }
+        let g = it.next().map(key);
+        if g != due.get(consumed).copied() {
+            return e("next()".into(), format!("{g:?}"), format!("{:?}", due.get(consumed)));
+        }
+    }
+    Ok(calls)
+}
+
 fn book_walk(w: &mut BookWalk, node: BookMoves, pos: &Pos, board: &Board) -> Result<(), String> {
     let kids = guarded(|| book_children(node)).unwrap_or_else(Err)?;
+    let calls = guarded(|| book_iter_methods(node, &kids)).unwrap_or_else(Err)?;
+    w.st.class_n("iterator method calls (count, last, nth, skip, step_by, fold, size_hint) compared with repeated next()", calls);
     if kids.is_empty() {
         w.leaves += 1;
         w.max_depth = w.max_depth.max(w.path.len());
@@ -815,6 +887,130 @@ fn c17_run(st: &mut Stats) -> Result<(), String> {
     Ok(())
 }
 
+/// The command-line front end replays book lines with `assert!(board.move_mut(..))`: it may
+/// do so only from the standard start. Each scenario starts the real binary (`on-board` with
+/// or without a position argument) and watches it until it leaves the book phase (it prints
+/// the position as FEN before its first search), exits, or a deadline passes. The only verdict
+/// is a panic before the first search; slowness, other exit codes and changed output formats
+/// are no verdict. Without an argument the CLI picks its line with its own RNG: which line is
+/// replayed varies from run to run, the verdict on a correct tree cannot.
+fn cli_scenario(bin: &str, fen: Option<&str>) -> Result<&'static str, String> {
+    use std::io::{BufRead, BufReader};
+    use std::process::{Command, Stdio};
+    let mut cmd = Command::new(bin);
+    cmd.arg("on-board");
+    if let Some(f) = fen {
+        cmd.arg(f);
+    }
+    cmd.env("RUST_BACKTRACE", "0");
+    let mut ch = match cmd.stdin(Stdio::null()).stdout(Stdio::null()).stderr(Stdio::piped()).spawn() {
+        Ok(c) => c,
+        Err(_) => return Ok("CLI stage: could not start the binary (no verdict)"),
+    };
+    let err = ch.stderr.take().expect("piped");
+    let (tx, rx) = std::sync::mpsc::channel::<String>();
+    let reader = std::thread::spawn(move || {
+        for l in BufReader::new(err).lines().map_while(Result::ok) {
+            if tx.send(l).is_err() {
+                break;
+            }
+        }
+    });
+    let deadline = std::time::Instant::now() + std::time::Duration::from_secs(4);
+    let mut tail: Vec<String> = vec![];
+    let mut panic_line: Option<String> = None;
+    let mut outcome = "CLI scenario: deadline passed before the first search (no verdict)";
+    loop {
+        match rx.recv_timeout(std::time::Duration::from_millis(50)) {
+            Ok(l) => {
+                let is_fen = l.split(' ').count() == 6 && l.split(' ').next().map_or(false, |b| b.matches('/').count() == 7);
+                if is_fen {
+                    outcome = "CLI scenario: reached its first search without a panic";
+                    break;
+                }
+                if l.contains("panicked at") && panic_line.is_none() {
+                    panic_line = Some(l.clone());
+                }
+                tail.push(l);
+                if tail.len() > 12 {
+                    tail.remove(0);
+                }
+            }
+            Err(std::sync::mpsc::RecvTimeoutError::Timeout) => {
+                if std::time::Instant::now() > deadline {
+                    break;
+                }
+            }
+            Err(std::sync::mpsc::RecvTimeoutError::Disconnected) => {
+                // stderr closed: the process is exiting
+                let st = ch.wait().ok();
+                let _ = reader.join();
+                if st.and_then(|s| s.code()) == Some(101) && panic_line.is_some() {
+                    return Err(format!(
+                        "C17 chess-cli on-board {} panics before its first search (it replays opening-book moves from a position other than the one the book line starts from, or a book move was refused): {}",
+                        fen.map_or("(no position argument: book from the standard start)".to_string(), |f| format!("`{f}`")),
+                        format!("{} | {}", panic_line.unwrap_or_default(), tail.join(" | ")).chars().take(600).collect::<String>()
+                    ));
+                }
+                return Ok("CLI scenario: exited before a search without a panic (no verdict)");
+            }
+        }
+    }
+    let _ = ch.kill();
+    let _ = ch.wait();
+    drop(rx);
+    let _ = reader.join();
+    Ok(outcome)
+}
+
+fn cli_stage(st: &mut Stats) -> Result<(), String> {
+    let bin = std::env::var("VERIF_CHESS_CLI").unwrap_or_else(|_| "/verif/target/release/chess-cli".to_string());
+    if !std::path::Path::new(&bin).exists() {
+        st.class("CLI stage skipped: chess-cli binary not built");
+        return Ok(());
+    }
+    let mut scenarios: Vec<Option<String>> = vec![None, None, None, None];
+    let start = "rnbqkbnr/pppppppp/8/8/8/8/PPPPPPPP/RNBQKBNR";
+    for turn in ["w", "b"] {
+        for rights in ["KQkq", "-", "K", "Qk", "kq", "KQ", "q"] {
+            for clocks in ["0 1", "7 30"] {
+                scenarios.push(Some(format!("{start} {turn} {rights} - {clocks}")));
+            }
+        }
+    }
+    // the no-right start, several times (a replayed line fails only if it castles)
+    for _ in 0..6 {
+        scenarios.push(Some(format!("{start} w - - 0 1")));
+    }
+    for f in [
+        "rnbqkbnr/pppppppp/8/8/4P3/8/PPPP1PPP/RNBQKBNR b KQkq e3 0 1",
+        "rnbqkbnr/pppp1ppp/8/4p3/4P3/8/PPPP1PPP/RNBQKBNR w KQkq e6 0 2",
+        "rnbqkbnr/pppppppp/8/8/8/5N2/PPPPPPPP/RNBQKB1R b KQkq - 1 1",
+        "rnbqkb1r/pppppppp/5n2/8/8/5N2/PPPPPPPP/RNBQKB1R w KQkq - 2 2",
+        "rnbqkbnr/pppppppp/8/8/8/8/PPPPPPPP/RNBQKBN1 w Qkq - 0 1",
+        "r3k2r/8/8/8/8/8/8/R3K2R w KQkq - 0 1",
+        "4k3/8/8/8/8/8/8/4K2R w K - 0 1",
+    ] {
+        scenarios.push(Some(f.to_string()));
+    }
+    let results: Vec<Result<&'static str, String>> = std::thread::scope(|sc| {
+        let mut out = vec![];
+        for chunk in scenarios.chunks(8) {
+            let hs: Vec<_> = chunk.iter().map(|f| { let bin = bin.clone(); sc.spawn(move || cli_scenario(&bin, f.as_deref())) }).collect();
+            for h in hs {
+                out.push(h.join().unwrap_or_else(|_| Ok("CLI scenario: harness thread failed (no verdict)")));
+            }
+        }
+        out
+    });
+    for r in results {
+        let c = r?;
+        st.class(c);
+        st.eval(1);
+    }
+    Ok(())
+}
+
 fn c17_worker(ctx: &WorkerCtx) -> Result<(), Fail> {
     if ctx.idx != 0 {
         return Ok(());
@@ -822,14 +1018,21 @@ fn c17_worker(ctx: &WorkerCtx) -> Result<(), Fail> {
     let mut st = ctx.stats.borrow_mut();
     st.sample_gap = 5000;
     st.sample_cap = 5;
-    c17_run(&mut st).map_err(|d| fail(json!({"c17": "walk"}), d))
+    c17_run(&mut st).map_err(|d| fail(json!({"c17": "walk"}), d))?;
+    cli_stage(&mut st).map_err(|d| fail(json!({"c17": "cli"}), d))
 }
 
 pub const C17: CheckDef = CheckDef {
     id: "C17",
     worker: c17_worker,
-    replay: |_| c17_run(&mut Stats::new()),
-    rule: "complete walk of the embedded opening-book trie from INITIAL_BOOOK_MOVES (and of EMPTY_BOOK_MOVES) in lockstep with the reference model and the implementation board from the standard position: every edge (source, dest, no promotion) must be in the reference legal set and accepted by move_new; every node's iterator must terminate. evaluations = edges. Every edge is non-trivial; distinct by (path, move). The whole book is the input space.",
+    replay: |v| {
+        if v.get("c17").and_then(|x| x.as_str()) == Some("cli") {
+            cli_stage(&mut Stats::new())
+        } else {
+            c17_run(&mut Stats::new())
+        }
+    },
+    rule: "complete walk of the embedded opening-book trie from INITIAL_BOOOK_MOVES (and of EMPTY_BOOK_MOVES) in lockstep with the reference model and the implementation board from the standard position: every edge (source, dest, no promotion) must be in the reference legal set and accepted by move_new; every node's iterator must terminate, and in every consumed-prefix state its count(), last(), fold, size_hint, nth(k), skip(k), step_by(k) (k up to past the end and around 2^8, 2^16, 2^32, usize::MAX) must agree with repeated next(). evaluations = edges. Every edge is non-trivial; distinct by (path, move). The whole book is the input space. CLI stage: the real chess-cli binary is started on 41 position arguments (start placement x side to move x castling subsets x clocks, positions after one or two book moves, other positions) and four times without one; a panic before its first search is a violation (book lines may be replayed from the standard start only).",
     assumptions: &["'stays inside the table' is decided by re-running the walk in the checked profile, where the debug_assert on the index traps; in release an out-of-table read is observable only through an illegal move, a crash or non-termination"],
     exhaustive: |_| true,
     uses_reference: true,
